@@ -81,7 +81,7 @@ def correspondence(ck, binpath, n, nsel):
 
 
 def search(ck, binpath, n):
-    rc, out, err = ck.run_bin(binpath, ["search", "--seed", ck.seed, "--n", n], timeout=1500)
+    rc, out, err = ck.run_bin(binpath, ["search", "--seed", closed_seed(ck), "--n", n], timeout=1500)
     if rc != 0:
         ck.tie_broken("harness c07 search failed", err[-2000:])
         return
